@@ -2304,7 +2304,7 @@ func (r *Runtime) wrapJSFunc(fn Callable, typ reflect.Type) func(args []reflect.
 		if err != nil {
 			if numOut > 0 && typ.Out(numOut-1) == reflectTypeError {
 				if ex, ok := err.(*Exception); ok {
-					if exo, ok := ex.val.(*Object); ok {
+					if exo, ok := ex.val.(*Object); ok && r.getGoError().self.hasInstance(exo) {
 						if v := exo.self.getStr("value", nil); v != nil {
 							if v.ExportType().AssignableTo(reflectTypeError) {
 								err = v.Export().(error)
